@@ -90,6 +90,11 @@ CLAIMED = {
    note="Assumed: sequential execution under configLock; encoding/json serialises exactly the value it is handed; TLS material inside opaque parts of the configuration (json.RawMessage, map[string]interface{} filter configs, ExtendConfigs, routers) is outside the contracts; that no other TLS-typed field exists in the type graph of effectiveConfig is not itself proved (positions enumerated by hand from pkg/config/v2). Not covered: pkg/admin/server handlers beyond their use of DumpJSON/HandleMOSNConfig, SDS secrets.",
    technique="contract-based deductive verification (WP over go/ssa, SMT) with heap frames, freshness and separation invariants; model-free replay of failed obligations against the real dump entry points",
    design="5/C20"),
+ "C03": dict(
+   text="Claimed narrowly (the once-only tokens the statement's 'exactly one terminal outcome' rests on). Proof level, under interference (the shared word is havocked before every atomic operation): each of the three parties that can end a try - the upstream response (upstreamRequest.OnReceive), the per-try timer callback and the global timer callback - performs its outcome action only after winning CompareAndSwap(upstreamResponseReceived, 0, 1) (call-site obligations over a ghost record of this function's own last atomic write, so a load-then-store or a missing guard fails); the upstream and the downstream reset flags record one reason and send one wake-up per arming; cleanStream's body runs only for the winner of CompareAndSwap(downstreamCleaned, 0, 1). Sequentially: a retry (setupRetry) hands the token back (== 0) and disarms the per-try timer for every prior state, and cleanUp leaves no timer referenced (timers are stopped before the stream object is recycled) and releases the retry slot.",
+   note="Assumed: sendNotify (1-slot channel) and upstreamRequest.resetStream do not touch the stream's flags (trusted contracts on in-repo functions), go.uber.org/atomic boxes write only themselves, utils.Timer.Stop touches only the timer. Not covered - and mostly not decidable by contracts within reach: that across ALL interleavings exactly one reply reaches the client (a whole-history property over goroutines, channels and timers), boundedness in time (liveness), the phase machine of receive/OnReceive as a whole, mapping of reset reasons to reply codes.",
+   technique="contract-based deductive verification (WP over go/ssa, SMT) with interference at atomic operations and a ghost record of won compare-and-swaps",
+   design="5/C03"),
 }
 NA = {
  "C11": "quantifies over the arrival time of a signal relative to in-flight requests across two processes (fd passing, drain timers): crash points and schedules of the whole runtime; no function whose pre/postcondition states it (DESIGN.md section 6)",
